@@ -217,6 +217,8 @@ def obligations(tier: str):
         pipe("tree_f5ctx_mutate", fixture="f5ctx", rep="tree", decider="grow", max_depth=2, ops=["mutate"], fuel=40)
     pipe("tree_f5_RD_mutate", fixture="f5", grammar_fn="g_RD", rep="tree", decider="grow", max_depth=2, ops=["mutate"])
     pipe("tree_f2_create", fixture="f2", rep="tree", decider="grow", max_depth=2)
+    pipe("tree_f3n_create", fixture="f3n", rep="tree", decider="grow", max_depth=3)
+    pipe("ge_f3n_create", fixture="f3n", rep="ge", decider="grow", max_depth=3, gene_length=6)
     pipe("tree_f2_crossover", fixture="f2", rep="tree", decider="grow", max_depth=2, ops=["crossover"]) if T else None
     for rep in ("ge", "sge", "dsge"):
         gl = 6 if rep == "ge" else 2
